@@ -95,6 +95,10 @@ CALLERS = [
     (["sect4"], ["call sect4(a(n:n+3))"]),
     (["sect4"], ["call sect4(c(1:4, m))"]),
     (["lb2"], ["call lb2(a(3:6))"]),
+    (["sect4"], ["call sect4(a(1:7:2))"]),
+    (["sect4"], ["call sect4(a(8:2:-2))"]),
+    (["assumed"], ["call assumed(a(0:8:2))"]),
+    (["sect4"], ["call sect4(c(m, 1:4))"]),
     (["lb2"], ["call lb2(b(0:3))"]),
     (["expr_in"], ["call expr_in(t * 2.0, u)"]),
     (["expr_in"], ["call expr_in(u + 1.0, u)"]),
